@@ -32,6 +32,13 @@ def check_diff_extractor(repo, sub, findings, R=None):
     if len(mom) != 1:
         raise AnalysisError("STENCIL", "the derivative table is not started from exactly one overlap table", f.where())
     mom = mom[0]
+    # Which shell is differentiated?  Normally the first (A, alpha).  A path on which the caller hands the two shells over in exchanged
+    # order - all four of (centre, exponents) x (first, second) - computes <b| d^k |a>; that is the same integral up to the parity
+    # (-1)^|k| of the integration by parts, which the caller must then apply (info["exchanged"]; the callers check the sign and the roles).
+    _a = mom.call_args
+    exchanged = all(sp.simplify(_a[pos].e - w) == 0 for pos, w in {2: B(c), 4: be, 5: A(c), 7: al}.items())
+    info["exchanged"] = exchanged
+    al_d = be if exchanged else al
     for s in ex.stores:
         terms, const, tsyms, subs = stencil_of(ex, s)
         vals, lows, consts = tvalues(tsyms)
@@ -68,14 +75,14 @@ def check_diff_extractor(repo, sub, findings, R=None):
         up[0], up[2] = -1, +1
         dn = [0] * n_axes
         dn[0], dn[2] = -1, -1
-        compare(ex, s, [(tuple(up), 2 * al), (tuple(dn), -vals[2])], findings, "D", "derivative step")
+        compare(ex, s, [(tuple(up), 2 * al_d), (tuple(dn), -vals[2])], findings, "D", "derivative step")
         info["stores"].append((s, "D"))
     # the overlap table it starts from: (zero origin, order 0, A, a-max + padding, alpha, B, b-max, beta)
     args = mom.call_args
     names = mom.func.params
     bound = dict(zip(names, args))
     exp = {2: A(c), 4: al, 5: B(c), 7: be}
-    for pos, want in exp.items():
+    for pos, want in ({} if exchanged else exp).items():
         got = args[pos].e
         if sp.simplify(got - want) != 0:
             findings.append(Finding("D0", None, f"the overlap table under the derivative table is built with `{names[pos]}` = {got}; the derivative acts on "
@@ -149,3 +156,10 @@ def order_vector_of_core(ex, core, findings, f, axis_roles, table_expected):
         findings.append(Finding("GATHER", None, f"components covered: {sorted(vec)}", construct="component product"))
         return None
     return tuple(vec[k] for k in range(3))
+
+
+def shell_roles(minfo, info):
+    """table axis -> 'a' / 'b' in terms of the two shells of the PUBLIC kernel.  The overlap-table check names the role of an axis by
+    the centre (A or B of the public kernel) its recursion step leads with, so the roles are already the public ones on a path that
+    hands the shells over in exchanged order."""
+    return {k: v for k, v in minfo["axis_role"].items() if v in ("a", "b")}
